@@ -122,7 +122,7 @@ Definition resp_header_step (cfg : hcfg) (noHTTP11 : bool) (st : rsst) (k v : by
              end
       else if cic key strConnection then
         if hasHeaderValue v strClose then Ok (StOk (pset_close st true))
-        else Ok (StOk (pset_hh (pset_close st false) (appendArg (p_hh st) key v)))
+        else Ok (StOk (pset_hh st (appendArg (p_hh st) key v)))
       else other
     else if N.eqb c0 (ch "s") then
       if cic key strServer then Ok (StOk (pset_server st v))
